@@ -119,6 +119,12 @@ def gen_case(rng):
         if k not in used:
             used.add(k)
             cards.insert(rng.choice([0, rng.randint(0, len(cards)), len(cards)]), rng.choice([[k, "int", rng.choice([7, 59000])], [k, "str", rng.choice(["late", "MJD 59000"])]]))
+    if c["load_template"] and not aim_aligned and rng.random() < 0.6:
+        # cards that also exist in the template, with values a truthiness test would drop (0, 0.0) next to ordinary ones: the caller's value wins
+        tk = [k for k, _ in template() if k not in RESERVED and k not in ("DIRECTIO", "END") and k not in used]
+        for k in rng.sample(tk, min(len(tk), rng.randint(1, 3))):
+            used.add(k)
+            cards.insert(rng.randint(0, len(cards)), rng.choice([[k, "int", 0], [k, "float", 0.0], [k, "int", 7], [k, "str", "mine"]]))
     c["cards"] = cards
     return c
 
@@ -185,15 +191,33 @@ def oracle(c, r, tpl):
                     bad("owned-NANTS", "block %d: NANTS card %s, array has %d antennas" % (k_global, h.get("NANTS"), cfg["NANTS"]))
             elif "NANTS" in h and int(h["NANTS"]) != 1:
                 bad("owned-NANTS", "block %d: single antenna recorded with NANTS=%s (caller's value not overridden)" % (k_global, h["NANTS"]))
+            if "DIRECTIO" in user:
+                # the caller's DIRECTIO decides the padding: its numeric value when it has one (0 otherwise), template or not
+                try:
+                    want_dio = int(str(user["DIRECTIO"][1]).replace("'", "").strip())
+                except ValueError:
+                    want_dio = 0
+                try:
+                    got_dio = int(str(h.get("DIRECTIO")).replace("'", "").strip())
+                except ValueError:
+                    got_dio = None
+                if got_dio != want_dio:
+                    bad("user-card-changed", "block %d: DIRECTIO card %r, caller gave %r (template %s)" % (k_global, h.get("DIRECTIO"), user["DIRECTIO"][1], "on" if c["load_template"] else "off"))
             for key, (kind, v) in user.items():
                 if key in RESERVED or key == "DIRECTIO":
                     continue
                 if key not in h:
                     bad("user-card-lost", "block %d: caller's card %s missing" % (k_global, key)); continue
                 got = h[key]
-                if kind == "int" and int(got) != v:
+
+                def num(x, conv):
+                    try:
+                        return conv(x)
+                    except ValueError:
+                        return None         # not even a number any more
+                if kind == "int" and num(got, int) != v:
                     bad("user-card-changed", "block %d: %s = %s, caller gave %r" % (k_global, key, got, v))
-                if kind == "float" and float(got) != v:
+                if kind == "float" and num(got, float) != v:
                     bad("user-card-changed", "block %d: %s = %s, caller gave %r" % (k_global, key, got, v))
                 if kind == "str" and got.strip("'").strip() != v.strip("'").strip():
                     bad("user-card-changed", "block %d: %s = %r, caller gave %r" % (k_global, key, got, v))
